@@ -288,14 +288,17 @@ class RtAnalysis:
         F = self.F
         obs = {}
 
-        def add(effect, kfn, boundary, sink, where, chain, inst_idx):
+        def add(effect, kfn, boundary, sink, where, chain, inst_idx, site=None):
             boundary = norm_boundary(boundary)
             key = '%s|%s|%s' % (effect, kfn, boundary)
             o = obs.get(key)
             if o is None:
                 o = obs[key] = {'key': key, 'effect': effect, 'fn': kfn, 'boundary': boundary,
-                                'sites': set(), 'sinks': set(), 'chain': None, 'where': []}
+                                'sites': set(), 'ids': set(), 'sinks': set(), 'chain': None, 'where': []}
             o['sites'].add(where)
+            # a site is one MIR terminator (two index expressions on one source line are two sites; the count must
+            # not depend on how the line is wrapped)
+            o['ids'].add(site if site is not None else where)
             o['sinks'].add(sink)
             if o['chain'] is None:
                 o['chain'] = chain
@@ -335,15 +338,15 @@ class RtAnalysis:
                 if t['k'] == 'assert':
                     if auto_assert(body, t):
                         continue
-                    add('panic', kfn, 'assert:' + t['msg'], 'assert', body.where(bi), root_chain, k)
+                    add('panic', kfn, 'assert:' + t['msg'], 'assert', body.where(bi), root_chain, k, site=(body.idx, bi))
                 elif t['k'] == 'asm':
-                    add('leaf', kfn, 'asm', 'inline asm', body.where(bi), root_chain, k)
+                    add('leaf', kfn, 'asm', 'inline asm', body.where(bi), root_chain, k, site=(body.idx, bi))
             for e in F.out.get(k, []):
                 t = e['to']
                 where = body.where(e['bb'])
                 if t is None:
                     if e['kind'] in ('unresolved', 'indirect', 'generic-impl'):
-                        add('leaf', kfn, e['kind'], str(e.get('note')), where, root_chain, k)
+                        add('leaf', kfn, e['kind'], str(e.get('note')), where, root_chain, k, site=(body.idx, e['bb']))
                     continue
                 tinst = F.instances[t]
                 if is_kira(tinst) and not tinst['leaf']:
@@ -363,11 +366,12 @@ class RtAnalysis:
                         self.auto_count += 1
                         continue
                     chain = root_chain + [F.instances[x]['name'] for x in ch]
-                    add(eff, kfn, boundary, sink, where, chain, k)
+                    add(eff, kfn, boundary, sink, where, chain, k, site=(body.idx, e['bb']))
         out = []
         for key in sorted(obs):
             o = obs[key]
-            o['count'] = len(o['sites'])
+            o['count'] = len(o['ids'])
+            del o['ids']
             o['sites'] = sorted(o['sites'])
             o['sinks'] = sorted(o['sinks'])
             out.append(o)
